@@ -2,6 +2,9 @@ import PycsepVerif.Soft64
 import PycsepVerif.RealOps
 import PycsepVerif.Model.Time
 import PycsepVerif.Model.TimeExt
+import PycsepVerif.Model.JsonRecords
+import PycsepVerif.Model.FloatText
+import PycsepVerif.Model.ReaderText
 /-
   PyPrelude — the meaning of every numpy / stdlib operation the source translator (harness/py2lean.py) accepts,
   at each type it accepts it. PART OF THE TRUSTED BASE: `GeneratedSrc.lean` is a composition of these operations in
@@ -330,5 +333,180 @@ def loggammaSucc (n : Nat) : α := logFact n
 /-- `scipy.stats.poisson.cdf(0, r)` = e^{-r} -/
 def poissonCdf0 (r : α) : α := exp (neg r)
 end Real
+
+/-! ## object layer: arbitrary Python values as trees (`JsonTree.PyObj`, Model/JsonTree.lean), exceptions `ErrX`
+
+    Used for code that moves values between attributes, dictionaries and lists without computing with them
+    (`to_dict` / `from_dict`). A dict is the list of its entries in iteration order; keys are unique in Python, lookups
+    return the first entry with the key. -/
+
+/-! ## cells of a text record (csv rows): subscripts that can fail, `float('…')`, `int('…')` -/
+
+/-- `line[k]` (k ≥ 0) on a list of strings: IndexError beyond the end -/
+def list_item (l : List (List Char)) (k : Nat) : Except Err (List Char) :=
+  match l[k]? with
+  | some s => .ok s
+  | none => .error .indexError
+
+/-- text for which Python's `float` / `int` do something the text layer does not describe: characters outside ASCII
+    (other scripts' digits and blanks are accepted by Python) -/
+def nonAscii (s : List Char) : Bool := s.any (fun c => decide (c.toNat ≥ 128))
+
+/-- the words `float` reads as non-finite values, after blanks and a sign -/
+def nonFiniteWord (s : List Char) : Bool :=
+  let t := (DecimalText.strip s).map Char.toLower
+  let t := match t with | '+' :: r => r | '-' :: r => r | r => r
+  t == "nan".toList || t == "inf".toList || t == "infinity".toList
+
+/-- `float(s)` of a str with a finite result: the value of the text layer (`FloatText.floatOfStr` = `DecimalText.pyFloat`:
+    blanks stripped, decimal grammar with underscores, correctly rounded); ValueError for text that is not a numeral.
+    Text read as nan / ±inf, numerals that overflow to ±inf and non-ASCII text are outside the layer (`other`). -/
+def float_str (s : List Char) : Except Err Rat :=
+  match FloatText.floatOfStr s with
+  | some x => .ok x
+  | none =>
+    if nonAscii s || nonFiniteWord s || (DecimalText.parseDecimal (String.ofList s)).isSome then .error .other
+    else .error .valueError
+
+/-- `int(s)` of a str: `DecimalText.pyInt` (blanks stripped, sign, digits with single underscores); ValueError otherwise;
+    non-ASCII text is outside the layer (`other`) -/
+def int_str (s : List Char) : Except Err Int :=
+  match DecimalText.pyInt (String.ofList s) with
+  | some n => .ok n
+  | none => if nonAscii s then .error .other else .error .valueError
+
+/-- a `%z` text with a seconds part (`±HHMMSS[.ffffff]`, `±HH:MM:SS[.ffffff]`): accepted by CPython, not by the text model -/
+def zoneWithSeconds (s : List Char) : Bool :=
+  let z := (s.reverse.takeWhile (fun c => c != '+' && c != '-')).reverse
+  decide (z.length ≥ 6) && z.all (fun c => c.isDigit || c == ':' || c == '.')
+
+/-- `datetime.datetime.strptime(s, fmt).timestamp()` for `fmt = '%Y-%m-%dT%H:%M:%S.%f%z'` (an aware datetime): the instant
+    `local − offset` in seconds as a float, `total_microseconds / 10**6` correctly rounded. The text is read by the reader
+    text model (`ReaderText.parseJmaTime`: directive widths and ranges of CPython's `_strptime`; `Z`, `±HHMM`, `±HH:MM`);
+    ValueError when it does not match or `datetime(...)` rejects the fields. Other formats, offsets with a seconds part and
+    non-ASCII text are not modelled (`other`). -/
+def strptime_timestamp (s fmt : List Char) : Except Err Rat :=
+  if fmt ≠ "%Y-%m-%dT%H:%M:%S.%f%z".toList then .error .other else
+  if nonAscii s then .error .other else
+  match ReaderText.parseJmaTime s with
+  | some (c, us, off) =>
+    if c.valid && decide (0 ≤ us) && decide (us < 1000000) then
+      .ok (Soft64.fl64 ((((c.epochSec - off) * 1000000 + us : Int) : Rat) / 1000000))
+    else .error .valueError
+  | none => if zoneWithSeconds s then .error .other else .error .valueError
+
+/-- the exception classes of the object layer -/
+inductive ErrX where
+  | keyError | typeError | attributeError | valueError | other
+  deriving DecidableEq, Repr
+
+open JsonTree in
+/-- `d['key']`: the entry of a dict; KeyError when missing; TypeError on list / tuple / str / None / Python scalars (not
+    subscriptable by a str); other kinds (numpy values, foreign objects) are not modelled (`other`) -/
+def obj_item (d : PyObj) (s : String) : Except ErrX PyObj :=
+  match d with
+  | .dict kvs => match kvs.get s with
+    | some v => .ok v
+    | none => .error .keyError
+  | .list _ | .tuple _ | .str _ | .none | .pyInt _ | .pyBool _ | .pyFloat _ => .error .typeError
+  | _ => .error .other
+
+open JsonTree in
+/-- `d.get('key', default)` on a dict; AttributeError on values without `.get` -/
+def obj_get (d : PyObj) (s : String) (dflt : PyObj) : Except ErrX PyObj :=
+  match d with
+  | .dict kvs => .ok ((kvs.get s).getD dflt)
+  | _ => .error .attributeError
+
+open JsonTree in
+/-- `x.tolist()`: numpy arrays and numpy scalars have it (nested Python lists / the Python scalar); AttributeError otherwise -/
+def obj_tolist : PyObj → Except ErrX PyObj
+  | .ndarray xs => .ok (.list xs)
+  | .npFloat64 x => .ok (.pyFloat x)
+  | .npInt64 n => .ok (.pyInt n)
+  | .npBool b => .ok (.pyBool b)
+  | .npFloat32 x => .ok (.pyFloat x)
+  | _ => .error .attributeError
+
+open JsonTree in
+/-- `list(x)`: the items of a list / tuple, the characters of a str, the keys of a dict; TypeError for values that are not
+    iterable (None, scalars, foreign objects); numpy arrays (a list of numpy scalars) are not modelled here -/
+def obj_list : PyObj → Except ErrX PyObj
+  | .list xs => .ok (.list xs)
+  | .tuple xs => .ok (.list xs)
+  | .str s => .ok (.list (strChars s))
+  | .dict kvs => .ok (.list kvs.keyList)
+  | _ => .error .typeError
+
+/-- `[f x for x in xs]` where `f` can raise: evaluated left to right, the first exception ends it -/
+def mapE {α β : Type} (f : α → Except ErrX β) : List α → Except ErrX (List β)
+  | [] => .ok []
+  | x :: xs =>
+    match f x with
+    | .error e => .error e
+    | .ok y =>
+      match mapE f xs with
+      | .error e => .error e
+      | .ok ys => .ok (y :: ys)
+
+open JsonTree in
+/-- the items a comprehension / `for` visits: the items of a list / tuple, the characters of a str, the keys of a dict;
+    TypeError for None and Python scalars (not iterable); numpy values and foreign objects are not modelled (`other`) -/
+def obj_iter : PyObj → Except ErrX (List PyObj)
+  | .list xs => .ok xs.toList
+  | .tuple xs => .ok xs.toList
+  | .str s => .ok (strChars s).toList
+  | .dict kvs => .ok kvs.keyList.toList
+  | .none | .pyInt _ | .pyBool _ | .pyFloat _ => .error .typeError
+  | _ => .error .other
+
+/-- `[f(x) for x in it]` -/
+def obj_mapM (it : JsonTree.PyObj) (f : JsonTree.PyObj → Except ErrX JsonTree.PyObj) : Except ErrX (List JsonTree.PyObj) :=
+  match obj_iter it with
+  | .error e => .error e
+  | .ok xs => mapE f xs
+
+open JsonTree in
+def isFloatList : PyList → Bool
+  | .nil => true
+  | .cons (.pyFloat _) r => isFloatList r
+  | .cons _ _ => false
+
+open JsonTree in
+def isFloatRows (n : Nat) : PyList → Bool
+  | .nil => true
+  | .cons (.list r) rest => isFloatList r && r.toList.length == n && isFloatRows n rest
+  | .cons _ _ => false
+
+open JsonTree in
+/-- `numpy.array(x)` of a list of Python floats (1-D) or of equally long lists of Python floats (2-D): the float64 array
+    with those entries. Every other argument (mixed scalars, ragged rows, deeper nesting, strings, …) is not modelled
+    (`other`): numpy decides dtype and shape, or raises, by rules that are not part of this layer. -/
+def obj_nparray : PyObj → Except ErrX PyObj
+  | .list xs =>
+    if isFloatList xs then .ok (.ndarray xs) else
+    match xs with
+    | .cons (.list r) _ => if isFloatRows r.toList.length xs then .ok (.ndarray xs) else .error .other
+    | _ => .error .other
+  | _ => .error .other
+
+/-- `try: x = a / except: raise E(…)` (bare `except` / `except Exception`): every exception of `a` becomes `E`;
+    `other` (behaviour not modelled) stays `other` -/
+def tryRaise {β : Type} (a : Except ErrX β) (e : ErrX) : Except ErrX β :=
+  match a with
+  | .ok v => .ok v
+  | .error .other => .error .other
+  | .error _ => .error e
+
+/-- `str(x)` for a value that is a str or None -/
+def optstr_str : Option String → String
+  | some s => s
+  | none => "None"
+
+/-- `try: x = a / except E: x = b` -/
+def tryCatch {ε β : Type} [DecidableEq ε] (a : Except ε β) (e : ε) (b : Except ε β) : Except ε β :=
+  match a with
+  | .ok v => .ok v
+  | .error e' => if e' = e then b else .error e'
 
 end Py
